@@ -2014,6 +2014,10 @@ func asBlockLookup(v ssa.Value) (key ssa.Value, ok bool) {
 	if !isCall {
 		return nil, false
 	}
+	// the block map as a type with a look-up method: bm.at(n)
+	if _, k, ok := blockLookupInstr(call); ok {
+		return k, true
+	}
 	cal := staticCallee(call)
 	if cal == nil || cal.Blocks == nil || !isRepoFunc(cal) {
 		return nil, false
